@@ -188,7 +188,7 @@ def replay(case):
 
 def _strategy():
     return lifecycle_cases(hooks=True, exec_fail=True, children=2,
-                           max_watchers=3, kill_cmd=False, signal_cmd=True,
+                           max_watchers=3, kill_cmd=True, signal_cmd=True,
                            respawn_false=True, rm=True)
 
 
